@@ -3,6 +3,8 @@ package rig
 import (
 	"net/netip"
 
+	"github.com/pion/ice/v4"
+
 	"github.com/pion/stun/v3"
 
 	"verif/sim/simnet"
@@ -34,6 +36,9 @@ type SideLedger struct {
 	NominatedBy map[PairKey]bool
 	// NomValueBy: an authentic request carrying a nomination value was delivered on the pair.
 	NomValueBy map[PairKey]bool
+	// UnprotectedNomBy: a request with valid MESSAGE-INTEGRITY was delivered on the pair that carries
+	// USE-CANDIDATE or a nomination value only BEHIND the MESSAGE-INTEGRITY attribute (covered by nothing).
+	UnprotectedNomBy map[PairKey]bool
 	// ReqDelivered: any authentic request delivered on the pair.
 	ReqDelivered map[PairKey]int
 	SentUC       int // Binding requests with USE-CANDIDATE emitted by the agent
@@ -43,7 +48,7 @@ type SideLedger struct {
 
 func newSide() *SideLedger {
 	return &SideLedger{Sent: map[[stun.TransactionIDSize]byte]SentReq{}, Validated: map[PairKey]bool{}, UCAnswered: map[PairKey]bool{},
-		NomAnswered: map[PairKey]uint32{}, NominatedBy: map[PairKey]bool{}, NomValueBy: map[PairKey]bool{}, ReqDelivered: map[PairKey]int{}}
+		NomAnswered: map[PairKey]uint32{}, NominatedBy: map[PairKey]bool{}, NomValueBy: map[PairKey]bool{}, UnprotectedNomBy: map[PairKey]bool{}, ReqDelivered: map[PairKey]int{}}
 }
 
 // Ledger tracks both agents of a Duo.
@@ -192,6 +197,10 @@ func (l *Ledger) onDeliver(dg *simnet.Datagram, to *simnet.Sock) {
 		}
 		if m.Nomination != nil {
 			s.NomValueBy[k] = true
+		}
+		if m.TrailingUnauthenticated && !m.UseCandidate && m.Nomination == nil &&
+			(m.M.Contains(stun.AttrUseCandidate) || m.M.Contains(stun.AttrType(ice.DefaultNominationAttribute))) {
+			s.UnprotectedNomBy[k] = true
 		}
 	}
 }
